@@ -985,7 +985,13 @@ pub fn render(lines: &[String], trailing_newline: bool) -> String {
     t
 }
 
-pub const NO_EQ: [&str; 12] = [
+pub const NO_EQ: [&str; 15] = [
+    // lines that look blank and are not.  (A line holding only a carriage
+    // return is left out: for a reader of CRLF text it *is* a blank line, and
+    // the statements do not say which reading applies.)
+    "\u{a0}",
+    "\u{feff}",
+    "\u{b}",
     "BUILD_DATE",
     "garbage",
     "PKGNAME testpkg-1.0",
